@@ -1,12 +1,13 @@
 #!/bin/bash
 # tryseed.sh <prop> <patchfile> [more props...] : apply a patch to a scratch copy of /repo and run the quick checks
 P=$1; PATCH=$2; shift 2
-/verif/check list quick >/dev/null || { echo "CHECKER BUILD FAILED"; exit 4; }
+SV=${SV:-}
+if [ -z "$SV" ]; then /verif/check list quick >/dev/null || { echo "CHECKER BUILD FAILED"; exit 4; }; SV=/verif/bin/stgverif; fi
 T=$(mktemp -d /tmp/stgseed.XXXX)
 rsync -a --exclude .git --exclude SEED /repo/ $T/repo/
 ( cd $T/repo && patch -p1 --batch -s < $PATCH ) || { echo "PATCH FAILED"; rm -rf $T; exit 3; }
 for prop in $P "$@"; do
-  VERIF_REPO=$T/repo VERIF_EVIDENCE_DIR=$T/ev /verif/bin/stgverif $prop quick | grep -v "^  rule\|^property=\|^  note" | cut -c1-400
+  VERIF_DIR=/verif VERIF_REPO=$T/repo VERIF_EVIDENCE_DIR=$T/ev $SV $prop quick | grep -v "^  rule\|^property=\|^  note" | cut -c1-400
   echo "[$prop exit=${PIPESTATUS[0]}]"
 done
 rm -rf $T
